@@ -96,7 +96,7 @@ static int guarded_call(int fn, int wide, const uint32_t *pu, long pn, const uin
 	const void *p = pn < 0 ? NULL : g_place(&gp[wide][0], pu, (size_t)pn, wide);
 	const void *s = sn < 0 ? NULL : g_place(&gp[wide][1], su, (size_t)sn, wide);
 	int r;
-	if (sigsetjmp(jb, 1) == 0) { armed = 1; r = call(fn, wide, p, s, flags) ? 1 : 0; armed = 0; }
+	if (sigsetjmp(jb, 0) == 0) { armed = 1; r = call(fn, wide, p, s, flags) ? 1 : 0; armed = 0; }
 	else r = 2;
 	return r;
 }
@@ -135,7 +135,7 @@ static void p_op(char *line)
 		pu[0] = '['; pu[bn + 1] = ']';
 		void *p = g_place(&gp[wide][0], pu, (size_t)bn + 2, wide);
 		int r;
-		if (sigsetjmp(jb, 1) == 0) {
+		if (sigsetjmp(jb, 0) == 0) {
 			armed = 1;
 			if (wide) r = pm_list_w((wchar_t *)p + 1, (wchar_t *)p + 1 + bn, (wchar_t)c[0], 0) ? 1 : 0;
 			else r = pm_list((char *)p + 1, (char *)p + 1 + bn, (char)c[0], 0) ? 1 : 0;
@@ -147,7 +147,7 @@ static void p_op(char *line)
 		long sn = parse_units(w[2], su);
 		if (sn < 0) { printf("bad-op\n"); return; }
 		void *s = g_place(&gp[wide][1], su, (size_t)sn, wide);
-		if (sigsetjmp(jb, 1) == 0) {
+		if (sigsetjmp(jb, 0) == 0) {
 			armed = 1;
 			long off = wide ? (long)(pm_slashskip_w(s) - (wchar_t *)s) : (long)(pm_slashskip(s) - (char *)s);
 			armed = 0;
